@@ -50,31 +50,41 @@ C07  Name obfuscation is a consistent, capture-free renaming — property theore
                                  `Obfuscator.resolve` answers per occurrence (`rhoFin`) satisfy `condProgram` and `isoCond`.
   excluded / kf07*_excluded      the three recorded deviation classes as structural predicates on the tree (Proofs/ObfExcluded.lean) with
                                  kernel-evaluated witnesses: the witness programs are excluded, not aligned and their binding structure is NOT preserved.
-  capture_free_of_walk_facts     THE LINK "invariants + alignment ⇒ same resolution", for SIMPLE programs (global, function and catch scopes: no
-                                 label, no named function expression): if the WALK FACTS hold (`factsProgram`, Proofs/ObfFacts.lean —
-                                 decidable book-keeping only: every function node has its own scope record under the record of the enclosing
-                                 scope with exactly the function's parameters and hoisted declarations as `local_declared_symbols`; every catch
-                                 clause has its own catch record (for its parameter) under the record of the enclosing scope; every
-                                 Identifier is registered in the record of its innermost function or catch clause; a reference is a key of that
-                                 scope's `referenced_symbols`; a `var` / function declaration is declared by the innermost function record and
-                                 is not spelled like a catch parameter in between — the complement of KF-07a) and no generated name is the word
-                                 `arguments`, then `condProgram` holds for the obfuscator's
-                                 renaming: every declaration and reference is renamed by its own environment record and NO reference is captured.
+  capture_free_of_walk_facts     THE LINK "invariants + alignment ⇒ same resolution", for EVERY program: if the WALK FACTS hold (`factsProgram`,
+                                 Proofs/ObfFacts.lean — decidable book-keeping only: every function node has its own scope record under the
+                                 record of the enclosing scope whose `local_declared_symbols` contain the function's parameters and hoisted
+                                 declarations; every catch clause has its own catch record (for its parameter) under the record of the
+                                 enclosing scope; every Identifier is registered in the record of its innermost function or catch clause — the
+                                 own name of a function expression, and a label, in the scope enclosing it; a reference is a key of that
+                                 scope's `referenced_symbols` and is not resolved past a scope whose table has it only as the name of a nested
+                                 function expression (`noExtra`, the complement of KF-07b); a `var` / function declaration is declared by the
+                                 innermost function record and is not spelled like a catch parameter in between (the complement of KF-07a);
+                                 between a labelled jump and the definition of every label up to its target no catch clause binds the label's
+                                 name (`labelRefOK`, the complement of KF-07c)) and no generated name is the word `arguments`, then
+                                 `condProgram` holds for the obfuscator's
+                                 renaming: every declaration and reference is renamed by its own environment record, NO reference is captured,
+                                 and every labelled jump finds the image of its label.
                                  Proved from `remap_injective_visible`, the table facts, the leak invariant and declared ⊆ referenced
-                                 (`finalize_chainGood`, `lookup_link`): the replacement tables never enter the hypotheses.
-  aligned_of_walk_facts          simple programs: walk facts + `noArgsValue` ⇒ `alignedOf fl p = some true` — `condProgram` as above AND `isoCond`:
+                                 (`finalize_chainGood`, `lookup_link`, `decl_link`, `labelRef_link`): the replacement tables never enter the
+                                 hypotheses.
+  aligned_of_walk_facts          walk facts + `noArgsValue` ⇒ `alignedOf fl p = some true` — `condProgram` as above AND `isoCond`:
                                  every binder ES5 resolution reports names a declared symbol of the scope record its (kind, scope) determines
                                  (`program_bok`, one more induction over the resolver), on those the record renaming is one-to-one
-                                 (`mapBinder_inj`, again from `remap_injective_visible`) and keeps free names, `arguments` and — without
-                                 obfuscate_globals — top-level names (`root_table_nil`).
-  binding_preserved_simple_partial   simple programs: walk facts + `noArgsValue` ⇒ `bindingPreserved fl p = some true`.  The only hypotheses
-                                 left are book-keeping (what the prewalk registered where) and the >53^8-names corner.
-STILL MISSING for `aligned_of_not_excluded`:
-  (i)  the walk facts themselves from the Gen.Defs-driven walk (`factsProgram` is evaluated per program: driver `facts`, obligation in the
-       check) — needs a per-node-kind analysis of the rule interpreter (which attributes a definition walks, where PushScope/PopScope sit)
-       and a tree-in-vocabulary hypothesis;
-  (iii) the same link for labels and named function expressions (environment records without / with shared scopes); catch clauses are
-       covered (`Al.catch`, `lookup_link`, `decl_link` in Proofs/ObfLink.lean).
+                                 (`mapBinder_inj`, again from `remap_injective_visible`) and keeps free names, `arguments`, undefined labels
+                                 and — without obfuscate_globals — top-level names (`root_table_nil`).
+  binding_preserved_of_walk_facts_partial (= binding_preserved_simple_partial, the name of the first version, kept)
+                                 walk facts + `noArgsValue` ⇒ `bindingPreserved fl p = some true`.  The only hypotheses left are
+                                 book-keeping (what the prewalk registered where) and the >53^8-names corner.  `_partial`: the walk facts are a
+                                 hypothesis (evaluated per program), not derived from the model of the walk.
+STILL MISSING for `aligned_of_not_excluded`: exactly one lemma,
+       `prewalkHook tablesGen fl p = .ok fin → excluded fl.obfuscateGlobals p = false → factsProgram fin recs p = true`
+  i.e. the walk facts themselves from the Gen.Defs-driven walk (`factsProgram` is evaluated per program: driver `facts`, obligation in the
+  check: every generated program outside `excluded` has them) — needs a per-node-kind analysis of the rule interpreter (which attributes
+  a definition walks, where PushScope/PopScope sit), uniqueness of record ids and node paths, and a tree-in-vocabulary hypothesis.
+  The link itself now covers function, catch, function-expression-name and label records (`Al.func/catch/self`, `LabelOK`,
+  Proofs/ObfLink.lean, ObfSimple.lean).  Note: `function f(x){break x}` (a jump to an UNDEFINED label spelled like a variable; the parser
+  accepts it, ES5 §12.8 does not) is outside `excluded`, not aligned and has no walk facts; programs the reference parser rejects are
+  out of scope of the check.
   The check evaluates `alignedOf` on every generated program not in `excluded` (obligation `model: not excluded implies aligned`).
 -/
 import CalmVerif.Proofs.ObfInjTree
@@ -305,7 +315,7 @@ theorem binding_preserved_pointwise (fl : Flags) (program : Val) (fin : Final)
   have _ := hfin
   exact resolveProgram_rename (tauFin fin) (rhoFin fin) program h
 
-/-- **capture_free_of_walk_facts** (simple programs; Proofs/ObfLink.lean, ObfSimple*.lean). -/
+/-- **capture_free_of_walk_facts** (Proofs/ObfLink.lean, ObfSimple*.lean). -/
 theorem capture_free_of_walk_facts (fl : Flags) (program : Val) (st : St) (fin : Final)
     (hpre : prewalk tablesGen fl.shadowFuncname program = .ok st)
     (hfin : finalize Gen.ObfData.charset fl st = .ok fin) (hna : noArgsValue fin = true)
@@ -313,7 +323,7 @@ theorem capture_free_of_walk_facts (fl : Flags) (program : Val) (st : St) (fin :
     condProgram (tauFin fin) (rhoFin fin) program = true :=
   cond_of_walk_facts fl program st fin charset_ok hpre hfin hna hfacts
 
-/-- **aligned_of_walk_facts** (simple programs; Proofs/ObfIso*.lean for the `isoCond` half). -/
+/-- **aligned_of_walk_facts** (Proofs/ObfIso*.lean for the `isoCond` half). -/
 theorem aligned_of_walk_facts (fl : Flags) (program : Val) (st : St) (fin : Final)
     (hpre : prewalk tablesGen fl.shadowFuncname program = .ok st)
     (hfin : finalize Gen.ObfData.charset fl st = .ok fin) (hna : noArgsValue fin = true)
@@ -321,14 +331,22 @@ theorem aligned_of_walk_facts (fl : Flags) (program : Val) (st : St) (fin : Fina
     alignedOf fl program = some true :=
   Obf.aligned_of_walk_facts fl program st fin charset_ok hpre hfin hna hfacts
 
-/-- **binding_preserved_simple_partial**: for simple programs the binding structure is preserved as soon as the walk facts
-hold and no generated name is `arguments`. -/
+/-- **binding_preserved_simple_partial** (the name of the first version, which covered function and global scopes only): for every
+program the binding structure is preserved as soon as the walk facts hold and no generated name is `arguments`. -/
 theorem binding_preserved_simple_partial (fl : Flags) (program : Val) (st : St) (fin : Final)
     (hpre : prewalk tablesGen fl.shadowFuncname program = .ok st)
     (hfin : finalize Gen.ObfData.charset fl st = .ok fin) (hna : noArgsValue fin = true)
     (hfacts : ∀ g, st.stack = [g] → factsProgram fin (recsOf [] (closeFrame g) fin.tree) program = true) :
     bindingPreserved fl program = some true :=
   binding_preserved_partial fl program (aligned_of_walk_facts fl program st fin hpre hfin hna hfacts)
+
+/-- **binding_preserved_of_walk_facts_partial**: the same statement under the name that says what it is. -/
+theorem binding_preserved_of_walk_facts_partial (fl : Flags) (program : Val) (st : St) (fin : Final)
+    (hpre : prewalk tablesGen fl.shadowFuncname program = .ok st)
+    (hfin : finalize Gen.ObfData.charset fl st = .ok fin) (hna : noArgsValue fin = true)
+    (hfacts : ∀ g, st.stack = [g] → factsProgram fin (recsOf [] (closeFrame g) fin.tree) program = true) :
+    bindingPreserved fl program = some true :=
+  binding_preserved_simple_partial fl program st fin hpre hfin hna hfacts
 
 /-! ### negation witnesses of the known findings (evaluated in the kernel) -/
 
@@ -398,6 +416,27 @@ it is not excluded, aligned, and its binding structure is preserved -/
 theorem catch_program_facts : factsOf (minifyFlags false false) catchP = some true ∧
     factsOf (minifyFlags true true) catchP = some true ∧ excluded true catchP = false ∧
     alignedOf (minifyFlags true true) catchP = some true ∧ bindingPreserved (minifyFlags true true) catchP = some true := by
+  decide +kernel
+
+/-- `function h(x){var g=x;var f=function g(){return g+x};return g+f}` -/
+def selfP : Val := (.node "ES5Program" [("children", (.list [(.node "FuncDecl" [("elements", (.list [(.node "VarStatement" [("children", (.list [(.node "VarDecl" [("identifier", (.node "Identifier" [("value", (.str "g"))])), ("initializer", (.node "Identifier" [("value", (.str "x"))]))])]))]), (.node "VarStatement" [("children", (.list [(.node "VarDecl" [("identifier", (.node "Identifier" [("value", (.str "f"))])), ("initializer", (.node "FuncExpr" [("elements", (.list [(.node "Return" [("expr", (.node "BinOp" [("left", (.node "Identifier" [("value", (.str "g"))])), ("op", (.str "+")), ("right", (.node "Identifier" [("value", (.str "x"))]))]))])])), ("identifier", (.node "Identifier" [("value", (.str "g"))])), ("parameters", (.list []))]))])]))]), (.node "Return" [("expr", (.node "BinOp" [("left", (.node "Identifier" [("value", (.str "g"))])), ("op", (.str "+")), ("right", (.node "Identifier" [("value", (.str "f"))]))]))])])), ("identifier", (.node "Identifier" [("value", (.str "h"))])), ("parameters", (.list [(.node "Identifier" [("value", (.str "x"))])]))])]))])
+
+/-- the walk facts hold on a program with a named function expression whose name is also a variable of the enclosing function, for
+both flag settings; it is not excluded, aligned, and its binding structure is preserved -/
+theorem self_program_facts : factsOf (minifyFlags false false) selfP = some true ∧
+    factsOf (minifyFlags true true) selfP = some true ∧ excluded true selfP = false ∧
+    alignedOf (minifyFlags true true) selfP = some true ∧ bindingPreserved (minifyFlags true true) selfP = some true := by
+  decide +kernel
+
+/-- `function f(a){x:for(;;){try{a()}catch(e){y:for(;;){if(e)continue y;break x}}}}` -/
+def labelP : Val := (.node "ES5Program" [("children", (.list [(.node "FuncDecl" [("elements", (.list [(.node "Label" [("identifier", (.node "Identifier" [("value", (.str "x"))])), ("statement", (.node "For" [("cond", (.node "EmptyStatement" [("value", (.str ";"))])), ("count", .none), ("init", (.node "EmptyStatement" [("value", (.str ";"))])), ("statement", (.node "Block" [("children", (.list [(.node "Try" [("catch", (.node "Catch" [("elements", (.node "Block" [("children", (.list [(.node "Label" [("identifier", (.node "Identifier" [("value", (.str "y"))])), ("statement", (.node "For" [("cond", (.node "EmptyStatement" [("value", (.str ";"))])), ("count", .none), ("init", (.node "EmptyStatement" [("value", (.str ";"))])), ("statement", (.node "Block" [("children", (.list [(.node "If" [("alternative", .none), ("consequent", (.node "Continue" [("identifier", (.node "Identifier" [("value", (.str "y"))]))])), ("predicate", (.node "Identifier" [("value", (.str "e"))]))]), (.node "Break" [("identifier", (.node "Identifier" [("value", (.str "x"))]))])]))]))]))])]))])), ("identifier", (.node "Identifier" [("value", (.str "e"))]))])), ("fin", .none), ("statements", (.node "Block" [("children", (.list [(.node "ExprStatement" [("expr", (.node "FunctionCall" [("args", (.node "Arguments" [("items", (.list []))])), ("identifier", (.node "Identifier" [("value", (.str "a"))]))]))])]))]))])]))]))]))])])), ("identifier", (.node "Identifier" [("value", (.str "f"))])), ("parameters", (.list [(.node "Identifier" [("value", (.str "a"))])]))])]))])
+
+/-- the walk facts hold on a program with labels and labelled jumps out of a catch block, for both flag settings; it is not
+excluded, aligned, and its binding structure is preserved; the KF-07c witness has no walk facts -/
+theorem label_program_facts : factsOf (minifyFlags false false) labelP = some true ∧
+    factsOf (minifyFlags true true) labelP = some true ∧ excluded true labelP = false ∧
+    alignedOf (minifyFlags true true) labelP = some true ∧ bindingPreserved (minifyFlags true true) labelP = some true ∧
+    factsOf (minifyFlags false false) kfC = some false := by
   decide +kernel
 
 /-! ### the hypotheses are satisfiable -/
